@@ -254,18 +254,137 @@ def main(replay=None):
                                   e, {"ARRAY": "an array", "HASHMAP": "a hashmap"}[kind], {"after": "Q ran before it", "beside": "Q ran beside it on another thread", "twice": "P itself ran before it"}[m]), rep)
                 break
 
+    # ------------------------------------------------------------- family R: re-entrancy through the log callback (one thread)
+    # Instance A runs an expression P whose operator emits a non-fatal diagnostic part-way through; inside A's log callback the
+    # host lets instance B run Q (the same operator with other operands, and another operator).  By the property A's value and its
+    # later diagnostics are those of P alone and B's are those of Q alone: an operator that keeps work in a static breaks this.
+    import C09 as sweep                      # operand pools per type and the registry-wide case generator of the C09 sweep
+    import subprocess
+    STRING_BUILDERS = ['format ["a-%1-%5-z", 1, 2]', 'format ["%3|%1|x", "p"]', 'format ["q%9q%1q", [1, 2]]', 'format ["%1%2%3%4", "only"]',
+                       'format ["<%2>", "left"]', 'format ["%1-%0-%1", 7]', 'formatText ["%1 and %4", 1]', 'formatText ["%3", "a"]',
+                       'toString [65, "a", 66]', 'toString [66, [], 67, 68]', '[1, "x", 3] joinString 5', '[1, 2, 3] joinString "-"',
+                       'str [1, 2, [3, "s"]]', '"abcdef" select [9, 2]', '"abcdef" select [-1, 2]', '"abcdef" select [2, -1]', 'toArray "ab"',
+                       '[1, 2] select 2', '[[1, 2], [3]] select [5, 1]', '"a,b" splitString ""', 'composeText ["a", 1]', 'parseNumber "12x"',
+                       '"abc" find 5', 'toUpper "abc"', 'toLower "ABC"', '["a", "b"] joinString 7', 'text "t" setAttributes ["a"]']
+    nodiag_name = re.compile(r"time|date|tick|random")
+    casesR = []
+    rstats = {"candidates_run_alone": 0, "kept (value returned, a non-error diagnostic before it)": 0, "pairs_tried": 0,
+              "nontrivial (B ran inside a diagnostic of A)": 0}
+    if replay:
+        r = json.load(open(replay))["replay"]
+        if r.get("family") == "R":
+            casesR = [(r["p"], r["q"], r["k"])]
+    else:
+        cdir = os.path.join(V.VERIF, "corpus", PID)
+        if os.path.isdir(cdir):
+            for fn in sorted(os.listdir(cdir)):
+                r = json.load(open(os.path.join(cdir, fn)))
+                if r.get("family") == "R":
+                    casesR.append((r["p"], r["q"], r["k"]))
+        reg = subprocess.run([hapi, "ops"], stdout=subprocess.PIPE, timeout=120).stdout.decode("latin-1").split("\n")
+        registry = (sorted(l.split("\t")[1] for l in reg if l.startswith("N\t")),
+                    sorted(tuple(l.split("\t")[1:3]) for l in reg if l.startswith("U\t")),
+                    sorted(tuple(l.split("\t")[1:4]) for l in reg if l.startswith("B\t")))
+        sw, _, _ = sweep.sweep_cases(rng, registry, 3 if thorough else 1)
+        cands = [(c[1], c[4]) for c in sw if not nodiag_name.search(c[1])] + [("builder:" + t.split(" ")[0 if t[0].isalpha() else -2], t) for t in STRING_BUILDERS]
+        rstats["candidates_run_alone"] = len(cands)
+        rc, al, _ = V.run_lines_parallel([hapi, "iso"], ["alone\t%s\t%s" % (hx(t), hx("")) for _, t in cands], timeout=3000)
+
+        def diag_points(rec):
+            """indices (in order of emission) of the diagnostics of a record that are not the final value print; None if unusable"""
+            f = rec.split(":", 2)
+            if len(f) < 3 or f[0] not in ("-1", "0") or f[1] != "0" or ":M<VALUE " not in rec:
+                return None
+            items = [x for x in f[2].split(",") if x]
+            lv = [(int(x.split(":")[0]), x.split(":")[1]) for x in items if re.match(r"^\d+:\d+", x)]
+            if any(l <= 1 for l, _ in lv):
+                return None          # an error-level diagnostic: the run is not the non-fatal case
+            return [i for i, (l, c) in enumerate(lv) if c != "60095"]
+        kept = {}
+        for (nm, t), a in zip(cands, al):
+            pts = diag_points(a)
+            if pts:
+                kept.setdefault(nm, []).append((t, a, pts))
+        rstats["kept (value returned, a non-error diagnostic before it)"] = sum(len(v) for v in kept.values())
+        names = sorted(kept)
+        allk = [(nm,) + x for nm in names for x in kept[nm][:3]]
+        builders = [x for x in allk if x[0].startswith("builder:")]
+        others = [x for x in allk if not x[0].startswith("builder:")]
+        rng.shuffle(others)
+        ps = builders + others[:(600 if thorough else 110)]
+        for nm, t, a, pts in ps:
+            same = [x for x in allk if x[1] != t and (x[0] == nm or x[1].split(" ")[0] == t.split(" ")[0])]
+            qs = ([rng.choice(same)] if same else []) + [rng.choice([x for x in allk if x[0] != nm] or allk)]
+            if nm.startswith("builder:"):
+                qs += [rng.choice([x for x in builders if x[1] != t] or builders)]
+            for q in qs:
+                for k in pts[:2]:
+                    casesR.append((t, q[1], k))
+    alone = {}
+    texts = sorted({t for p_, q_, _ in casesR for t in (p_, q_)})
+    rc, al2, _ = V.run_lines_parallel([hapi, "iso"], ["alone\t%s\t%s" % (hx(t), hx("")) for t in texts], timeout=3000)
+    alone = dict(zip(texts, al2))
+    rc, implR, _ = V.run_lines_parallel([hapi, "reent"], ["%s\t%s\t%d" % (hx(p_), hx(q_), k) for p_, q_, k in casesR], timeout=3000)
+    seenR = set()
+    for (p_, q_, k), io in zip(casesR, implR):
+        rstats["pairs_tried"] += 1
+        evaluations += 1
+        f = io.split("\t")
+        rep = {"family": "R", "p": p_, "q": q_, "k": k, "impl": io, "p_alone": alone[p_], "q_alone": alone[q_],
+               "interleaving": "instance B runs q inside the log callback of instance A at A's diagnostic number %d of its run of p (one thread)" % k}
+        if len(f) != 3:
+            if (p_.split(" ")[0], "crash") not in seenR:
+                seenR.add((p_.split(" ")[0], "crash"))
+                run.violation("two VM instances used re-entrantly on one thread (B inside A's log callback) crash or hang the host", rep)
+            continue
+        if f[2] == "1":
+            rstats["nontrivial (B ran inside a diagnostic of A)"] += 1
+            distinct.add(("R", p_, q_, k))
+        why = None
+        if f[0] != alone[p_]:
+            why = "instance A's result / diagnostics for P differ from P alone when instance B ran Q inside A's log callback"
+        elif f[2] == "1" and f[1] != alone[q_]:
+            why = "instance B's result / diagnostics for Q differ from Q alone when it ran inside instance A's log callback"
+        if why:
+            key = (p_.split(" ")[0] if p_[0].isalpha() else p_, why[:12])
+            if key not in seenR:
+                seenR.add(key)
+                run.violation(why + " - an operator keeps work in process-wide state across instances (P: `%s`, Q: `%s`)" % (p_, q_), rep)
+    run.cov["reentrancy"] = rstats
+    dist["R pairs (P, Q, interleaving point)"] = len(casesR)
+    if thorough and not replay and casesR:
+        # the same pairs on two threads under ThreadSanitizer: supporting evidence only
+        try:
+            ht = V.build_harness("h_api", "tsan")
+            env = dict(os.environ, TSAN_OPTIONS="halt_on_error=0 exitcode=0")
+            some = casesR[:60]
+            rc, o, err = V.run_lines([ht, "iso"], ["beside\t%s\t%s" % (hx(p_), hx(q_)) for p_, q_, _ in some], timeout=2400, env=env)
+            run.notes.append("tsan (supporting evidence only): %d data-race reports for %d pairs of family R run beside each other on two threads"
+                             % (err.count("WARNING: ThreadSanitizer: data race"), len(some)))
+        except V.BuildError as e:
+            run.notes.append("tsan flavour did not build: " + str(e)[-200:])
+
     # ------------------------------------------------------------- the statics themselves, by name
     expected = set(re.findall(r'^\s*\("((?:[^"]|"")*)",\s*(?:Mode|Registry|Scratch|Constant)\)', open(os.path.join(V.COQ, "API", "IsoDefs.v")).read(), re.M))
     found_st = set(st["where"])
     appeared, gone = sorted(found_st - expected), sorted(expected - found_st)
     static_note = ""
+    concrete = any(v[2] for v in run.violations)
     if appeared or gone:
         static_note = "; ".join(
             (["new object(s) with static storage in a writable section: " + ", ".join("%s (defined in %s)" % (n, ", ".join(st["where"][n])) for n in appeared)] if appeared else []) +
             (["classified static(s) no longer present: " + ", ".join(gone)] if gone else []))
-        run.violation("the writable statics of the implementation are not the classified ones (C20_statics_are_exactly_known): " + static_note,
-                      {"broken": "C20_statics_are_exactly_known", "appeared": {n: st["where"][n] for n in appeared}, "disappeared": gone}, found_input=False)
+        if concrete:
+            # the broken obligation is shown by the concrete pairs above; it is recorded, not reported a second time without an input
+            run.notes.append("C20_statics_are_exactly_known is broken: " + static_note)
+            run.violations = [(w + " [" + static_note + "]" if f else w, dict(r, broken_obligation="C20_statics_are_exactly_known: " + static_note) if f else r, f)
+                              for w, r, f in run.violations]
+        else:
+            run.violation("the writable statics of the implementation are not the classified ones (C20_statics_are_exactly_known): " + static_note,
+                          {"broken": "C20_statics_are_exactly_known", "appeared": {n: st["where"][n] for n in appeared}, "disappeared": gone}, found_input=False)
     for p in problems:
+        if static_note and concrete and "C20_statics_are_exactly_known" in p:
+            continue
         if static_note and "Properties_C20" in p:
             p = p + " [" + static_note + "]"
         run.violation("proof obligation not discharged: " + p, {"broken": p, "theorems": run.cov["theorems"]}, found_input=False)
@@ -277,7 +396,10 @@ def main(replay=None):
                        "family B: pairs of programs from vmcommon.Gen - byte-wise comparison of the whole record (result, state, level:code, printed lines, value); "
                        "family C: every nular operator of the registry and every unary one with a simple argument of its registered type that returns an ARRAY / HASHMAP "
                        "(discovered on this run; time/random and control operators excepted): Q edits the returned container in place, P prints the operator's result, four modes; "
-                       "the concurrent case of family A is demanded only where the footprints cannot meet (partial)")
+                       "family R (re-entrancy, one thread): candidates = the registry-wide operand sweep of checks/C09.py (one case per signature) plus string-building operators with "
+                       "out-of-range / missing arguments, each run alone; those that return a value and emit a non-error diagnostic before it are paired (same operator with "
+                       "other operands, another operator): instance B runs Q inside the log callback of instance A at A's k-th diagnostic of P; A's record must equal P alone, "
+                       "B's record Q alone; the concurrent case of family A is demanded only where the footprints cannot meet (partial)")
     run.cov["input_distribution"] = dist
     run.cov["samples"] = samples
     run.cov["statics"] = sorted(st["where"])
